@@ -425,7 +425,7 @@ struct C16World: World {
   void execute(const Plan& p, Ctx& ctx) override {
     alloc_state().reset_counters(); alloc_state().budget = static_cast<size_t>(1) << 31;
     SimRandom rnd(p.run_seed); RandomScope rs(rnd);
-    if (p.cfg[2] > 0) { rnd.extreme_at = p.cfg[2] * 3; rnd.extreme_value = p.cfg[3] == 0 ? 0 : p.cfg[3] == 1 ? ~0ULL : 1ULL << 63; ctx.fault("extreme_draw"); }
+    if (p.cfg[2] > 0) { rnd.extreme_at = p.cfg[2] * 3; rnd.extreme_value = p.cfg[3] == 0 ? 0 : p.cfg[3] == 1 ? ~0ULL : 1ULL << 63; ctx.fault("extreme_draw"); ctx.fp_suffix = "|+extreme_draw"; }
     const uint32_t k = static_cast<uint32_t>(p.cfg[0]); const ds::resize_factor rf = static_cast<ds::resize_factor>(p.cfg[1] & 3);
     std::vector<Node> nodes(3); i64 next_id = 0;
     for (size_t i = 0; i < 3; i++) { nodes[i].k = std::max<uint32_t>(1, i == 2 ? k * 2 + 1 : k); nodes[i].sk.reset(new S(nodes[i].k, rf, talloc<int64_t>(1))); }
@@ -514,7 +514,7 @@ struct C18World: World {
     alloc_state().reset_counters(); alloc_state().budget = static_cast<size_t>(1) << 31;
     SimRandom rnd(p.run_seed); RandomScope rs(rnd);
     const bool extreme = p.cfg[1] > 0;
-    if (extreme) { rnd.extreme_at = p.cfg[1] * 2; rnd.extreme_value = p.cfg[2] == 0 ? 0 : p.cfg[2] == 1 ? ~0ULL : 1ULL << 63; ctx.fault("extreme_draw"); ctx.family = "ebpps<i64>+extreme_draw"; }
+    if (extreme) { rnd.extreme_at = p.cfg[1] * 2; rnd.extreme_value = p.cfg[2] == 0 ? 0 : p.cfg[2] == 1 ? ~0ULL : 1ULL << 63; ctx.fault("extreme_draw"); ctx.family = "ebpps<i64>+extreme_draw"; ctx.fp_suffix = "|+extreme_draw"; }
     const uint32_t k = static_cast<uint32_t>(p.cfg[0]);
     std::vector<Node> nodes(3); i64 next_id = 0;
     for (size_t i = 0; i < 3; i++) { nodes[i].k = i == 2 ? k * 2 + 1 : k; nodes[i].sk.reset(new S(nodes[i].k, talloc<int64_t>(1))); }
